@@ -55,7 +55,8 @@ def cases(tier, seed):
         m = scope.named_meshes(nd)[2]
         d = dict(m)
         d.update(list(scope.geometries(nd))[seed % 6])
-        d.update({"fields": ["f%d" % i for i in range(12)], "payload": "signed", "seed": seed,
+        # (every third field holds huge finite values of both signs: min/max tokens of 24 characters, "-2.38...e+296")
+        d.update({"fields": ["f%d" % i for i in range(12)], "payload": ["signed", "huge", "pos"] * 4, "seed": seed,
                   "layout": [scope.layouts(len(b), 'idrev')[3 if len(b) == 3 else -1] for b in m["levels"]]})
         out.append({"desc": d, "maxlen": 1, "w": 30, "wide": True})
     return out
